@@ -416,6 +416,20 @@ def debugFBig (W B : Nat) (m : Mode) (alt : Bool) (r : FRepr) (prec : Nat) : Lis
       strBytes ",\n    rounding: " ++ strBytes (modeName m) ++ strBytes ",\n}"
   else debugRepr W B false r ++ strBytes " (prec: " ++ printSpec 10 false prec ++ [41]
 
+/-- the shortcut for infinities at the head of every formatter of float/src/fmt.rs (`Repr::fmt_round`,
+    `Repr::fmt_round_scientific`, `Debug for Repr`, `Debug for FBig`): `f.write_str("inf")` /
+    `f.write_str("-inf")` — width, precision, fill, alignment and flags are not consulted -/
+def fmtInfinite (neg : Bool) : List Nat := if neg then [45, 105, 110, 102] else [105, 110, 102]
+
+/-- the formatting traits implemented for base `B` (kinds of the case protocol) -/
+def fmtKindDefined (k : String) (B : Nat) : Bool :=
+  match k with
+  | "disp" | "lexp" | "uexp" | "dbg" | "dbga" | "rdbg" | "rdbga" => true
+  | "bin" => B == 2
+  | "oct" => B == 8
+  | "lhex" | "uhex" => B == 2 || B == 16
+  | _ => false
+
 -- ---------------------------------------------------------------- specification of printing
 
 def ratOfRepr (B : Nat) (r : FRepr) : Rat := r.toRat B
